@@ -124,12 +124,22 @@ def dist(a, b):
 
 # option -> probe
 def probe_input(opt):
+    if opt == 'grep-match-word-style':
+        return RG_JSON_PROBE.encode(), ['rg', '--json', 'WORD']
+    if opt.startswith('blame-'):
+        return (b'abcd1234 (Ann 2020-01-01 00:00:00 +0000 1) PROBECODE here\nabcd1234 (Ann 2020-01-01 00:00:00 +0000 2) second\n',
+                ['git', 'blame', 'probefile.txt'])
+    if opt.startswith('merge-conflict-'):
+        lines = ['diff --cc probefile.rs', 'index 1111111,2222222..0000000', '--- a/probefile.rs', '+++ b/probefile.rs',
+                 '@@@ -1,3 -1,3 +1,9 @@@', '  ctx', '++<<<<<<< OURSIDE', ' +ours', '++||||||| BASESIDE', '++anc', '++=======', '+ theirs',
+                 '++>>>>>>> THEIRSIDE', '  ctx2']
+        return ('\n'.join(lines) + '\n').encode(), runner.NEUTRAL_PARENT
     if opt.startswith('grep-'):
         return b'probefile.rs:77:PROBETEXT here\nprobefile.rs-78-PROBECTX there\n', ['git', 'grep', '-n', '-C1', 'x']
     lines = ['commit abcdefabcdefabcdefabcdefabcdefabcdefabcd', 'Author: A <a@b>', '', '    msg', '',
              'diff --git a/probefile.rs b/probefile.rs', 'index 1111111..2222222 100644', '--- a/probefile.rs', '+++ b/probefile.rs',
              '@@ -77,3 +77,3 @@ PROBEFRAG()', ' PROBEZERO ctx', '-PROBEMINUS gone', ' MIDDLE ctx', '+PROBEPLUS new', ' SEP ctx',
-             '-PAIRED EMPHOLD tail of the line', '+PAIRED EMPHNEW tail of the line']
+             '-PAIRED EMPHOLD tail of the line', '+PAIRED EMPHNEW tail of the line', ' SEP2 ctx', '+PROBEWS   ']
     return ('\n'.join(lines) + '\n').encode(), runner.NEUTRAL_PARENT
 
 
@@ -155,8 +165,21 @@ PROBES = {
     'grep-context-line-style': ('PROBECTX there', []),
     'grep-file-style': ('probefile.rs', []),
     'grep-line-number-style': ('77', []),
+    # options probed with plain colour/attribute strings only (SIMPLE_ONLY)
+    'whitespace-error-style': ('   @@PROBEWS', []),
+    'blame-code-style': ('PROBECODE here', []),
+    'blame-separator-style': ('│', []),
+    'grep-match-word-style': ('WORD', []),
+    'merge-conflict-ours-diff-header-style': ('OURSIDE', ['--merge-conflict-ours-diff-header-decoration-style', 'none']),
+    'merge-conflict-theirs-diff-header-style': ('THEIRSIDE', ['--merge-conflict-theirs-diff-header-decoration-style', 'none']),
 }
-HEADER_OPTS = {'file-style', 'commit-style', 'hunk-header-file-style', 'hunk-header-line-number-style', 'hunk-header-style'}
+SIMPLE_ONLY = {'whitespace-error-style', 'blame-code-style', 'blame-separator-style', 'grep-match-word-style',
+               'merge-conflict-ours-diff-header-style', 'merge-conflict-theirs-diff-header-style'}
+RG_JSON_PROBE = ('{"type":"begin","data":{"path":{"text":"probefile.rs"}}}\n'
+                 '{"type":"match","data":{"path":{"text":"probefile.rs"},"lines":{"text":"PROBETEXT WORD here\\n"},"line_number":77,'
+                 '"absolute_offset":0,"submatches":[{"match":{"text":"WORD"},"start":10,"end":14}]}}\n')
+HEADER_OPTS = {'file-style', 'commit-style', 'hunk-header-file-style', 'hunk-header-line-number-style', 'hunk-header-style',
+               'merge-conflict-ours-diff-header-style', 'merge-conflict-theirs-diff-header-style'}
 AUTO_DEFINED = {'minus-style', 'plus-style', 'zero-style'}
 RAW_OMIT_DEFINED = {'minus-style': 'raw', 'plus-style': 'raw', 'zero-style': 'raw', 'file-style': 'both', 'commit-style': 'both'}
 IN_SHOW_CONFIG = {'minus-style', 'plus-style', 'zero-style', 'file-style', 'commit-style', 'grep-file-style', 'grep-line-number-style', 'hunk-header-style',
@@ -304,6 +327,14 @@ def run_item(item):
         opt = rng.choice(sorted(set(PROBES) - HEADER_OPTS - ({'grep-file-style', 'grep-line-number-style'} if 'raw' in words else set())))
         if 'raw' in words:
             opt = rng.choice(['minus-style', 'plus-style', 'zero-style'])
+    if opt in SIMPLE_ONLY and set(words) & {'raw', 'omit', 'syntax', 'auto', 'underline', 'box', 'ol', 'overline'}:
+        # (what these words mean for the less common style options is not spelled out: they are probed with colours and text
+        # attributes only)
+        opt = rng.choice(['minus-style', 'plus-style', 'zero-style'])
+        if 'omit' in words:
+            opt = rng.choice(['file-style', 'commit-style'])
+        elif 'underline' in words and 'raw' not in words:
+            opt = 'minus-emph-style'
     shown = decorate_case(rng, s)
     ref = Ref(shown)
     sets = {'options': [opt], 'color_mode': ['24bit' if true_color else '256']}
